@@ -141,6 +141,24 @@ theorem static_iff (isPrefix : Bool) (p path : List Char) (n : Nat) :
         · subst hr; simp [hn]
         · subst hr; simp [hn]
 
+/-! ### the length guard of the dynamic arms -/
+
+theorem tooLong_false {p : PathState} (h : blen p.path < 65536) : p.tooLong = false := by
+  unfold PathState.tooLong
+  simp only [decide_eq_false_iff_not]; omega
+
+theorem tooLong_true {p : PathState} (h : 65535 < blen p.path) : p.tooLong = true := by
+  unfold PathState.tooLong
+  simpa using h
+
+theorem blen_replicate_a (n : Nat) : blen (List.replicate n 'a') = n := by
+  induction n with
+  | zero => rfl
+  | succ n ih =>
+    rw [List.replicate_succ, blen, ih]
+    have : 'a'.utf8Size = 1 := by decide
+    omega
+
 /-! ### slicing -/
 
 theorem sliceBytes_zero_step (c : Char) (cs : List Char) (k : Nat) :
